@@ -20,6 +20,7 @@ json.dump(
         entries=ents,
         functions={f: sorted(c for c, gs in edges.items() if f in gs) for f in sorted(funcs)},
         adts=strops.adt_shapes(P),
+        signatures=strops.signatures(P),
     ),
     open(os.path.join(V, "policy", "tables", "str_ops.json"), "w"),
     indent=1,
